@@ -1,1 +1,127 @@
-From Coq Require Import ZArith.
+(* C20 — SVG path-data front ends emit the path they were given, transformed.  PARTIAL (see the end).
+   Proved:
+   * generate.SetPathData (model PathData.set_path_data, bit-exact against the Go code on ~16k strings per
+     run): for EVERY structured path in the dialect — commands with a first operand group and repeated
+     groups, numbers as decimal literals each followed by any run of spaces/commas or by nothing when the
+     next byte ends the number by itself, z/Z commands, final z — the calls made on the printed string are
+     exactly: StartPath(adj, first move, full transform), the first move's repeated groups as lines, every
+     later command's groups in order (M/m demoted to L/l when repeated), later moves as close-and-move,
+     arcs with rotation/360 and flags tested against 0, and one EndPath; no error.
+   * over the reals, for the same polymorphic terms: Concat is composition of the transforms in argument
+     order (any number of arguments), Translate/Scale are what they say, normalize gives absolute operand
+     pairs the full scale-and-translate transform and relative ones the scale only, arc radii the scale, arc
+     rotation and flags nothing, H/V their one coordinate.
+   * the converter: one colour register per distinct opacity (blend of transparent 0x7f with palette colour
+     0x80 by trunc(255 o)), earlier registers never disturbed; every circle is a move to its left-most point
+     and two relative half-turn arcs (2r, -2r); ParsePath = register call ++ path calls ++ circles ++ EndPath.
+   Not proved: the converter's own byte-level parser (ParsePathData) against a printer for its dialect —
+   it is covered by the correspondence check only; decimal-to-float conversion is taken as the model's
+   exact-rational rounding (validated against strconv by the correspondence check). *)
+From Coq Require Import Reals ZArith Bool List.
+From IVG Require Import SF NumCodec Color Calls Generator PathData GradGeomR PathR PathParse MdProofs.
+Import ListNotations.
+
+Theorem set_path_data_correct : forall tr adj cs, path_ok cs = true ->
+  set_path_data tr (print_path cs) adj = (path_calls tr adj cs, PDOk).
+Proof. exact PathParse.set_path_data_correct. Qed.
+Print Assumptions set_path_data_correct.
+
+Theorem concat_is_composition : forall (l : list (list R)) (x y : R),
+  mul_aff3_gen GR x y (concat_gen GR l) = fold_left applyR l (x, y).
+Proof. exact PathR.concat_is_composition. Qed.
+Print Assumptions concat_is_composition.
+
+Theorem norm_pairs2 : forall sx sy tx ty verb a0 a1,
+  norm_args_gen GR (Some [sx; 0; tx; 0; sy; ty]%R) 2 verb [a0; a1] =
+  let '(x, y) := trT sx sy tx ty verb a0 a1 in [x; y].
+Proof. exact PathR.norm_pairs2. Qed.
+Print Assumptions norm_pairs2.
+
+Theorem norm_pairs4 : forall sx sy tx ty verb a0 a1 a2 a3,
+  norm_args_gen GR (Some [sx; 0; tx; 0; sy; ty]%R) 4 verb [a0; a1; a2; a3] =
+  let '(x0, y0) := trT sx sy tx ty verb a0 a1 in let '(x1, y1) := trT sx sy tx ty verb a2 a3 in [x0; y0; x1; y1].
+Proof. exact PathR.norm_pairs4. Qed.
+Print Assumptions norm_pairs4.
+
+Theorem norm_pairs6 : forall sx sy tx ty verb a0 a1 a2 a3 a4 a5,
+  norm_args_gen GR (Some [sx; 0; tx; 0; sy; ty]%R) 6 verb [a0; a1; a2; a3; a4; a5] =
+  let '(x0, y0) := trT sx sy tx ty verb a0 a1 in let '(x1, y1) := trT sx sy tx ty verb a2 a3 in
+  let '(x2, y2) := trT sx sy tx ty verb a4 a5 in [x0; y0; x1; y1; x2; y2].
+Proof. exact PathR.norm_pairs6. Qed.
+Print Assumptions norm_pairs6.
+
+Theorem norm_arc : forall sx sy tx ty verb rx ry rot la sw x y,
+  norm_args_gen GR (Some [sx; 0; tx; 0; sy; ty]%R) 7 verb [rx; ry; rot; la; sw; x; y] =
+  let '(ex, ey) := trT sx sy tx ty verb x y in [rx * sx; ry * sy; rot; la; sw; ex; ey]%R.
+Proof. exact PathR.norm_arc. Qed.
+Print Assumptions norm_arc.
+
+Theorem norm_HV : forall sx sy tx ty x,
+  norm_args_gen GR (Some [sx; 0; tx; 0; sy; ty]%R) 1 72 [x] = [x * sx + tx]%R /\
+  norm_args_gen GR (Some [sx; 0; tx; 0; sy; ty]%R) 1 104 [x] = [x * sx]%R /\
+  norm_args_gen GR (Some [sx; 0; tx; 0; sy; ty]%R) 1 86 [x] = [x * sy + ty]%R /\
+  norm_args_gen GR (Some [sx; 0; tx; 0; sy; ty]%R) 1 118 [x] = [x * sy]%R.
+Proof. intros. repeat split; [apply PathR.norm_H|apply PathR.norm_h|apply PathR.norm_V|apply PathR.norm_v]. Qed.
+Print Assumptions norm_HV.
+
+Local Open Scope Z_scope.
+
+Theorem opacity_one_register : forall adjs o, feq F32 o k1 = false -> feq F32 o o = true ->
+  let '(_, a1, adjs1) := md_opacity adjs (Some o) in
+  md_opacity adjs1 (Some o) = ([], a1, adjs1).
+Proof. exact MdProofs.opacity_one_register. Qed.
+Print Assumptions opacity_one_register.
+
+Theorem opacity_new : forall adjs o, feq F32 o k1 = false -> adj_lookup adjs o = None ->
+  let a := (Z.of_nat (length adjs) + 1) mod 256 in
+  let t := match ftrunc F32 (fmul F32 o c255) with Some i => i mod 256 | None => 0 end in
+  md_opacity adjs (Some o) = ([CSetCReg a false (CBlend t 127 128)], a, adjs ++ [(o, a)]).
+Proof. exact MdProofs.opacity_new. Qed.
+Print Assumptions opacity_new.
+
+Theorem circles_calls : forall adj size ox oy outsize need cs,
+  md_circles adj size ox oy outsize need cs =
+  match cs with
+  | [] => []
+  | c :: cs' => md_circle adj size ox oy outsize need c ++ flat_map (md_circle adj size ox oy outsize false) cs'
+  end.
+Proof. exact MdProofs.circles_calls. Qed.
+Print Assumptions circles_calls.
+
+Theorem circle_shape : forall adj size ox oy outsize need c,
+  exists mv r, md_circle adj size ox oy outsize need c =
+    [mv; CArc true r r 0 false true (fmul F32 c2 r) 0; CArc true r r 0 false true (fmul F32 (fneg F32 c2) r) 0]
+    /\ r = fdiv F32 (fmul F32 (ci_r c) outsize) size
+    /\ match mv with
+       | CStartPath a _ _ => need = true /\ a = adj
+       | CDraw op [_; _] => need = false /\ op = opY
+       | _ => False
+       end.
+Proof. exact MdProofs.circle_shape. Qed.
+Print Assumptions circle_shape.
+
+Theorem parse_path_shape : forall adjs opacity d size ox oy outsize circles,
+  let '(pre, adj, adjs') := md_opacity adjs opacity in
+  let '(pcalls, ok) := match d with [] => ([], true) | _ => md_parse_path_data d adj size ox oy outsize end in
+  ok = true ->
+  md_parse_path adjs opacity d size ox oy outsize circles =
+  (pre ++ pcalls ++ md_circles adj size ox oy outsize (match d with [] => true | _ => false end) circles ++ [CEndPath],
+   adjs', true).
+Proof. exact MdProofs.parse_path_shape. Qed.
+Print Assumptions parse_path_shape.
+
+(* non-vacuity: "M1 2l3-4.5.5 6zm-1,1 2 2A1 1 90 0 1 5 5z" is in the dialect, and the theorem's right-hand
+   side for it is: StartPath, two relative lines (the second from the implicit group ".5 6"), a relative
+   close-and-move, a relative line, an arc, EndPath *)
+Definition tk (s : list Z) (sep : list Z) := mkNum s sep.
+Definition ex_path : list cmd :=
+  [ Cmd 77 [tk [49] [32]; tk [50] []] [];
+    Cmd 108 [tk [51] []; tk [45;52;46;53] []] [[tk [46;53] [32]; tk [54] []]];
+    CmdZ 122;
+    Cmd 109 [tk [45;49] [44]; tk [49] [32]] [[tk [50] [32]; tk [50] []]];
+    Cmd 65 [tk [49] [32]; tk [49] [32]; tk [57;48] [32]; tk [48] [32]; tk [49] [32]; tk [53] [32]; tk [53] []] [] ].
+Example ex_in_dialect : path_ok ex_path = true.
+Proof. vm_compute. reflexivity. Qed.
+Example ex_calls : map (fun c => match c with CStartPath _ _ _ => 1 | CDraw op _ => op | CArc _ _ _ _ _ _ _ _ => 2 | CEndPath => 3 | _ => 0 end)
+                       (path_calls None 0 ex_path) = [1; 108; 108; opy; 108; 2; 3].
+Proof. vm_compute. reflexivity. Qed.
